@@ -1,5 +1,6 @@
 import RichModel.Model.Theme
 import RichModel.Model.ThemeThreads
+import RichModel.Model.ThemeCtx
 import RichModel.Model.ConfigParser
 import RichModel.Drv.Proto
 /- Driver handlers for property C20 (theme stack, get_style, Theme.config / from_file).
@@ -97,6 +98,53 @@ def parseOps : Nat → List Tok → List (Op Nat) × List Tok
       let (ops, r') := parseOps fuel r
       (.use ⟨d⟩ i body :: ops, r')
 
+/-! ### histories with `ThemeContext` objects named by identity -/
+
+inductive CTok where
+  | push (i : Bool) (d : D)
+  | pop
+  | raise
+  | withC (c : Nat)
+  | endWith
+
+def decCTok (names : List Name) (s : String) : Option CTok :=
+  match s.toList with
+  | 'P' :: i :: ':' :: r => some (.push (i == '1') (decDict names (String.ofList r)))
+  | 'C' :: ds => some (.withC (decNat (String.ofList ds)))
+  | ['O'] => some .pop
+  | ['R'] => some .raise
+  | ['E'] => some .endWith
+  | _ => none
+
+def parseCOps : Nat → List CTok → List (COp Nat) × List CTok
+  | 0, ts => ([], ts)
+  | _, [] => ([], [])
+  | fuel + 1, t :: ts =>
+    match t with
+    | .endWith => ([], ts)
+    | .push i d => let (ops, r) := parseCOps fuel ts; (.push ⟨d⟩ i :: ops, r)
+    | .pop => let (ops, r) := parseCOps fuel ts; (.pop :: ops, r)
+    | .raise => let (ops, r) := parseCOps fuel ts; (.raise :: ops, r)
+    | .withC c =>
+      let (body, r) := parseCOps fuel ts
+      let (ops, r') := parseCOps fuel r
+      (.withC c body :: ops, r')
+
+/-- the object store: `i:dict;i:dict;…`, object number = position -/
+def decCtxEnv (names : List Name) (s : String) : CtxEnv Nat :=
+  let objs : List (CtxObj Nat) := (splitNE s ";").map (fun o =>
+    match o.toList with
+    | i :: ':' :: r => ⟨⟨decDict names (String.ofList r)⟩, i == '1'⟩
+    | _ => ⟨⟨[]⟩, true⟩)
+  fun c => objs.getD c ⟨⟨[(['?'], missId)]⟩, true⟩
+
+def decCStep (s : String) : Option CStep :=
+  match s.toList with
+  | 'N' :: ds => some (.enterC (decNat (String.ofList ds)))
+  | 'X' :: ds => some (.exitC (decNat (String.ofList ds)))
+  | ['O'] => some .pop
+  | _ => none
+
 def encGet : Except GErr (Got Nat) → String
   | .ok (.same s) => toString s
   | .ok (.fresh s) => toString s ++ "*"          -- a copy with a new link id
@@ -176,6 +224,36 @@ def handlers : List (String × (List String → String)) := [
       let probes := splitNE probes ","
       let (_, out, tr) := traceOps (decBool flag) h st0
       encOutcome out ++ ";" ++ "|".intercalate ((st0 :: tr).map (encSnap names parse (decLinked linked) probes))
+    | _ => "bad-args"),
+  ("theme_hist_ctx", fun a => match a with
+    -- histories whose `with` statements name ThemeContext objects of a store (re-entry, re-use); the run traced is
+    -- `traceOps` of the erased history, which `ctx_objects_are_stateless` + `trace_is_run` tie to `runCOps`
+    | [flag, names, ptable, linked, base, ctxs, ops, probes] =>
+      let names := decStrList names
+      let parse := decPTable names ptable
+      let toks := (splitNE ops ";").filterMap (decCTok names)
+      let (h, _) := parseCOps (toks.length + 1) toks
+      let env := decCtxEnv names ctxs
+      let st0 : Stack Nat := Stack.init ⟨decDict names base⟩
+      let probes := splitNE probes ","
+      let (_, out, tr) := traceOps (decBool flag) (eraseOps env h) st0
+      let final := runCOps (decBool flag) env h st0
+      encOutcome out ++ ";" ++ "|".intercalate ((st0 :: tr).map (encSnap names parse (decLinked linked) probes))
+        ++ ";" ++ encOutcome final.2 ++ ";" ++ encSnap names parse (decLinked linked) probes final.1
+    | _ => "bad-args"),
+  ("theme_ctx_flat", fun a => match a with
+    -- hand-called __enter__/__exit__ on objects of a store + pop_theme, each step in its own try: state after every step
+    | [flag, names, ptable, linked, base, ctxs, steps, probes] =>
+      let names := decStrList names
+      let parse := decPTable names ptable
+      let env := decCtxEnv names ctxs
+      let st0 : Stack Nat := Stack.init ⟨decDict names base⟩
+      let probes := splitNE probes ","
+      let steps := (splitNE steps ";").filterMap decCStep
+      let go := steps.foldl (fun (acc : Stack Nat × List String) s =>
+        let r := applyF (decBool flag) (CStep.toF env s) acc.1
+        (r.1, acc.2 ++ [encErr r.2 ++ ";" ++ encSnap names parse (decLinked linked) probes r.1])) (st0, ["ok;" ++ encSnap names parse (decLinked linked) probes st0])
+      "|".intercalate go.2
     | _ => "bad-args"),
   ("theme_mt", fun a => match a with
     -- threads / outside mutation: after every scheduled step, the step's exception and every thread's view
